@@ -76,6 +76,13 @@ def gen_launch(ctx, P, maxn):
         rs = compositions(rng, N, P, rng.choice(styles)); cs = compositions(rng, M, P, rng.choice(styles))
         fr = [sum(rs[:i]) for i in range(P)]; fc = [sum(cs[:i]) for i in range(P)]
         add("explicit %d %d %d %s" % (N, M, P, " ".join("%d %d %d %d" % (rs[i], cs[i], fr[i], fc[i]) for i in range(P))))
+    # product partitions Partition(A, B): rows of A and columns of B, for factors that share neither row nor column blocks
+    for k in range(ctx.scale(12, 150)):
+        N, K, M = (max(0, rng.choice([0, 1, P, rng.randint(0, maxn)])) for _ in range(3))
+        ar, ak = compositions(rng, N, P, rng.choice(styles)), compositions(rng, K, P, rng.choice(styles))
+        bk, bm = compositions(rng, K, P, rng.choice(styles)), compositions(rng, M, P, rng.choice(styles))
+        def quad(rs, cs): return " ".join("%d %d %d %d" % (rs[i], cs[i], sum(rs[:i]), sum(cs[:i])) for i in range(P))
+        add("product %d %d %d %d %s %s" % (N, K, M, P, quad(ar, ak), quad(bk, bm)))
     for ppn in range(1, 17):
         for o in (0, 1, 2): add("topo %d %d %d" % (P, ppn, o))
     if P == 1:
@@ -226,6 +233,18 @@ def run_launch(ctx, P, cases, seen_sigs):
             ctx.compared += 1
             if ri["TOPO"] != rm.get("TOPO"):
                 sig("K", "topo:ordering%d" % o, "model and implementation differ: impl %s | model %s" % (" ".join(ri["TOPO"])[:300], " ".join(rm.get("TOPO", ["-"]))[:300]), line)
+            continue
+        if op == "product":
+            N, K, M = int(t[2]), int(t[3]), int(t[4]); vals = [int(x) for x in t[6:]]; a = vals[:4 * P]; b_ = vals[4 * P:8 * P]
+            if N > 0 and M > 0 and P > 1: ctx.nontrivial.add("%d %s" % (P, line.split(" ", 1)[1]))
+            if any(k not in ri for k in ("R", "FC", "OWN")): sig("K", "product:missing", "implementation output missing: %s" % (list(ri),), line); continue
+            R = parse_ranks(ri["R"])
+            for s_, d in judge_partition("product", N, M, P, R, ri["FC"], ri["OWN"]): sig("O", s_, d, line)
+            if all(r is not None and len(r) == 8 for r in R):
+                for r in range(P):
+                    if (R[r][3], R[r][5]) != (a[4 * r], b_[4 * r + 1]) or (a[4 * r] > 0 and R[r][2] != a[4 * r + 2]) or (b_[4 * r + 1] > 0 and R[r][4] != b_[4 * r + 3]):
+                        sig("O", "product:blocks", "rank %d of the product partition has rows (first %d, size %d) cols (first %d, size %d); the left factor's rows are (%d, %d), the right factor's columns (%d, %d)"
+                            % (r, R[r][2], R[r][3], R[r][4], R[r][5], a[4 * r + 2], a[4 * r], b_[4 * r + 3], b_[4 * r + 1]), line); break
             continue
         N, M = int(t[2]), int(t[3])
         if N < P: ctx.count("rows<P")
